@@ -1,5 +1,13 @@
 import BU.Properties.C07
+#print axioms C07.take32_append
+#print axioms C07.drop32_append
+#print axioms C07.tweakPubkey_inv
+#print axioms C07.fullPubkeyGen_ok
+#print axioms C07.tweakPrivkey_ok
 #print axioms C07.keypath_key_matches
+#print axioms C07.calculateTweak_lt
+#print axioms C07.signTaproot_inv
+#print axioms C07.take64
 #print axioms C07.keypath_sig_verifies
 #print axioms C07.scriptpath_sig_verifies
 #print axioms C07.sig_length
